@@ -1,7 +1,8 @@
 use hsim::supervisor::CheckDef;
 
+pub mod c16;
 pub mod c17;
 
 pub fn all() -> Vec<CheckDef> {
-    vec![c17::def()]
+    vec![c16::def(), c17::def()]
 }
